@@ -558,7 +558,13 @@ func (rc *RefClient) processEvent(f *Frame) {
 		if p, ok := rc.pool[rid]; ok {
 			// delivered by a get response in the directly preceding frame(s)
 			sig = "strayEvent.afterGet"
-			rc.poolKeep = map[string]*RCRes{rid: p}
+			_ = p
+			// the flush may continue with events for the other resources of
+			// the same get response: keep the whole pool one more frame
+			rc.poolKeep = map[string]*RCRes{}
+			for k, v := range rc.pool {
+				rc.poolKeep[k] = v
+			}
 		}
 		rc.viol("C02", f.T, rid, sig, "event %s for a resource the client does not hold: %s", f.Event, f.Raw)
 		if ev == "unsubscribe" {
